@@ -10,6 +10,7 @@ import ClairModel.Proofs.TarSeg
 import ClairModel.Proofs.RpmHeader
 import ClairModel.Proofs.RpmDb
 import ClairModel.Proofs.RpmFiles
+import ClairModel.Proofs.DockerLex
 import ClairModel.Gen.Tar
 
 namespace ClairModel.Props.C06
@@ -219,7 +220,7 @@ theorem rpm_join_length_le (dir base : RpmFiles.Bytes) : (RpmFiles.join dir base
     base names may share, so the recorded names together can be far larger than
     the data they come from.  24 base names `x.jar` under one 48-byte directory:
     the three arrays take 289 bytes of header data, the names recorded 1272.
-    (`finding:` rpm-filenames-quadratic; the harness replays a 13 KB header that
+    (`finding:` rpm-filenames-quadratic; the harness replays a 12 KB header that
     makes `Info.Load` allocate several thousand times its size.) -/
 def sharedDir : RpmFiles.Bytes := 47 :: List.replicate 47 97
 def jarBase : RpmFiles.Bytes := [120, 46, 106, 97, 114]
@@ -237,6 +238,24 @@ theorem rpm_filenames_partial (d b : RpmFiles.Bytes) : ((RpmFiles.join d b).drop
   have := RpmFiles.join_length_le d b
   simp only [List.length_drop]
   omega
+
+/-! ## the Dockerfile lexer (rhel/dockerfile/lex.go) -/
+
+/-- Time: the lexer (a definition Lean accepts without fuel: every item
+    consumes at least one rune) yields at most one item per byte of the file,
+    plus the final EOF, whatever the escape rune is. -/
+theorem dlex_items_le (esc : Nat) (b : DockerLex.Bytes) : (DockerLex.lex esc b).length ≤ b.length + 1 := by
+  have h1 := (DockerLex.lexAll_bounds esc (DockerLex.decodeAll b) 0).1
+  have h2 := DockerLex.decodeAll_length_le b
+  unfold DockerLex.lex
+  omega
+
+/-- Memory: the values of all items together hold at most as many runes as
+    the file has (every rune written to the builder, the re-written escape rune
+    included, stands for a rune read), i.e. at most 4 bytes per byte read. -/
+theorem dlex_runes_le (esc : Nat) (b : DockerLex.Bytes) :
+    DockerLex.written (DockerLex.lex esc b) ≤ (DockerLex.decodeAll b).length ∧ (DockerLex.decodeAll b).length ≤ b.length :=
+  ⟨(DockerLex.lexAll_bounds esc (DockerLex.decodeAll b) 0).2, DockerLex.decodeAll_length_le b⟩
 
 /-! ## rpm/bdb and rpm/ndb walkers -/
 
